@@ -242,8 +242,11 @@ impl Server {
                app: impl Application + New + Send + 'static + Copy) {
         for boxed_stream in listener.incoming() {
             if boxed_stream.is_err() {
+                // e.g. too many open files while many connections are pending: this connection is lost,
+                // the server keeps accepting (after a short pause, the condition usually lasts a while)
                 eprintln!("unable to get TCP stream: {}", boxed_stream.err().unwrap());
-                return;
+                std::thread::sleep(std::time::Duration::from_millis(10));
+                continue;
             }
 
             let stream = boxed_stream.unwrap();
